@@ -3,6 +3,7 @@ package rules
 import (
 	"fmt"
 	"go/token"
+	"go/types"
 	"sort"
 	"strings"
 
@@ -340,4 +341,149 @@ func mayIterate(p *Program, call ssa.CallInstruction) bool {
 		}
 	}
 	return false
+}
+
+// c09OwnerCloseReleasesAll: when the session object of a connection is closed, everything it still owns is released
+// on EVERY path through Close – in particular the pending data socket (with its listener and the goroutine blocked in
+// Accept). A Close that returns early (because closing the control connection reported an error, as a TLS connection does
+// when its peer has vanished) before it has looked at the other resources leaks them per affected session.
+func c09OwnerCloseReleasesAll(c *Ctx) {
+	p := c.P
+	const rule = "owner-close-releases-all"
+	ct := p.Type("services/ftp", "Conn")
+	cl := p.Method("services/ftp", "Conn", "Close")
+	if !c.Anchor(ct != nil && cl != nil, rule, "(*ftp.Conn).Close") {
+		return
+	}
+	// resources released in Close: fields of the receiver on whose value a Close is invoked
+	type rel struct {
+		field string
+		call  ssa.CallInstruction
+	}
+	var rels []rel
+	for _, call := range Calls(cl) {
+		cc := call.Common()
+		var recv ssa.Value
+		switch {
+		case cc.IsInvoke() && cc.Method.Name() == "Close":
+			recv = cc.Value
+		case cc.StaticCallee() != nil && cc.StaticCallee().Name() == "Close" && len(cc.Args) > 0:
+			recv = cc.Args[0]
+		}
+		if recv == nil {
+			continue
+		}
+		if ld, ok := isLoad(Unwrap(recv)); ok {
+			if fa, ok := ld.X.(*ssa.FieldAddr); ok && fa.X == ssa.Value(cl.Params[0]) {
+				rels = append(rels, rel{fieldNameOf(fa), call})
+			}
+		}
+	}
+	for _, r := range rels {
+		// the block that decides about this resource: the call's block, or the nil test of the same field that guards it
+		decide := r.call.Block()
+		for _, dc := range DomConds(r.call) {
+			if bo, ok := dc.V.(*ssa.BinOp); ok && IsNilConst(bo.Y) && dc.If != nil {
+				if _, isF := isFieldLoadNamed(bo.X, r.field); isF && dc.If.Block().Dominates(decide) {
+					decide = dc.If.Block()
+				}
+			}
+		}
+		ok := true
+		bad := ""
+		for _, ret := range Returns(cl) {
+			if !decide.Dominates(ret.Block()) {
+				ok = false
+				bad = p.InstrPos(ret)
+			}
+		}
+		c.Check(ok, rule, "Conn.Close releases "+r.field, p.InstrPos(r.call), "reached (or found unset) on every path through Close", "Close can return at "+bad+" before it has released (or looked at) Conn."+r.field+": when that early exit is taken – e.g. closing the control connection reports an error because the peer vanished from a TLS session – a pending passive data socket keeps its listener and its accept goroutine for ever")
+	}
+	c.Floor(rule, 2, "control connection and data socket")
+}
+
+// c09DataSocketReplaced: the session keeps ONE data socket, and Close releases the one stored last. Wherever a new
+// socket is stored into that field, the one already there is closed first (under a nil test); otherwise a passive socket
+// that was requested and never used – PASV sent twice – keeps its listener and accept goroutine for the life of the process.
+func c09DataSocketReplaced(c *Ctx) {
+	p := c.P
+	const rule = "data-socket-replaced-released"
+	ct := p.Type("services/ftp", "Conn")
+	if !c.Anchor(ct != nil, rule, "type ftp.Conn") {
+		return
+	}
+	field := fieldByType(ct, func(t types.Type) bool {
+		n := NamedOf(t)
+		return n != nil && n.Obj().Name() == "DataSocket"
+	})
+	if !c.Anchor(field != "", rule, "ftp.Conn's DataSocket field") {
+		return
+	}
+	n := 0
+	for _, fn := range p.FuncsIn("services/ftp") {
+		for _, b := range fn.Blocks {
+			for _, in := range b.Instrs {
+				st, ok := in.(*ssa.Store)
+				if !ok || IsNilConst(Unwrap(st.Val)) {
+					continue
+				}
+				fa, ok := st.Addr.(*ssa.FieldAddr)
+				if !ok || fieldNameOf(fa) != field || NamedOf(fa.X.Type()) == nil || NamedOf(fa.X.Type()).Obj() != ct.Obj() {
+					continue
+				}
+				if _, fresh := fa.X.(*ssa.Alloc); fresh {
+					continue // a session under construction
+				}
+				n++
+				closedFirst := false
+				for _, call := range Calls(fn) {
+					cc := call.Common()
+					if !cc.IsInvoke() || cc.Method.Name() != "Close" {
+						continue
+					}
+					if _, isF := isFieldLoadNamed(Unwrap(cc.Value), field); !isF {
+						continue
+					}
+					// on the path to the store: the close sits under a non-nil test whose block dominates the store
+					for _, dc := range DomConds(call) {
+						if bo, ok := dc.V.(*ssa.BinOp); ok && IsNilConst(bo.Y) && dc.If != nil && dc.If.Block().Dominates(st.Block()) {
+							if _, isF := isFieldLoadNamed(bo.X, field); isF {
+								closedFirst = true
+							}
+						}
+					}
+					if call.Block().Dominates(st.Block()) {
+						closedFirst = true
+					}
+				}
+				c.Check(closedFirst, rule, shortFn(fn)+" stores Conn."+field, p.InstrPos(st), "the socket already held is closed (if any) before it is replaced", "a new data socket is stored over the one the session already holds without closing that one: a passive socket that was requested and never used (the command sent twice) keeps its listener and its accept goroutine after the session, and for good")
+			}
+		}
+	}
+	c.Floor(rule, 1, "the one place that installs a session's data socket")
+}
+
+// c09OwnerCloseDeferred: the function that serves a session and closes the session object when it is done must do so in
+// a defer: a command that panics unwinds through it (the dispatcher's recover ends the connection), and a Close that only
+// follows the loop is skipped, leaving the session's data socket, listener and goroutines behind.
+func c09OwnerCloseDeferred(c *Ctx) {
+	p := c.P
+	const rule = "owner-close-deferred"
+	cl := p.Method("services/ftp", "Conn", "Close")
+	sv := p.Method("services/ftp", "Conn", "Serve")
+	if !c.Anchor(cl != nil && sv != nil, rule, "(*ftp.Conn).Serve / Close") {
+		return
+	}
+	deferred, plain := false, false
+	for _, call := range Calls(sv) {
+		if call.Common().StaticCallee() != cl {
+			continue
+		}
+		if _, isD := call.(*ssa.Defer); isD && call.Block() == sv.Blocks[0] {
+			deferred = true
+		} else {
+			plain = true
+		}
+	}
+	c.Check(deferred, rule, "Conn.Serve closes the session", p.Pos(sv.Pos()), "deferred at the start of Serve", map[bool]string{true: "Serve closes the session only after its command loop", false: "Serve does not close the session at all"}[plain]+": a command that panics (the dispatcher recovers it) skips the Close, and a passive data socket of the session keeps its listener and accept goroutine")
 }
